@@ -478,7 +478,12 @@ class AdaptiveForceBias(ForceBias):
             The variation coefficient for the forces.
         """
         try:
-            forces_committee = atoms.calc.results[self.forces_variance_keyword]  # type: ignore[try-attr]
+            # in double precision whatever the committee hands out: the adapted delta is
+            # compared with `min_delta` and `max_delta`, which are double precision numbers
+            forces_committee = np.asarray(
+                atoms.calc.results[self.forces_variance_keyword],  # type: ignore[try-attr]
+                dtype=float,
+            )
             spread = np.std(forces_committee, axis=0)
             magnitude = np.mean(np.abs(forces_committee), axis=0)
 
@@ -509,7 +514,10 @@ class AdaptiveForceBias(ForceBias):
             The variation coefficient for the energies.
         """
         try:
-            energies_committee = atoms.calc.results[self.energies_variance_keyword]  # type: ignore[try-attr]
+            energies_committee = np.asarray(
+                atoms.calc.results[self.energies_variance_keyword],  # type: ignore[try-attr]
+                dtype=float,
+            )
 
             return np.std(energies_committee, axis=0) / len(atoms)
         except (KeyError, AttributeError):
